@@ -15,7 +15,7 @@ FUNCTIONS = ['bycycle.group.features.compute_features_3d', 'bycycle.group.featur
              'bycycle.group.features.compute_features_2d', 'bycycle.group.utils.check_kwargs_shape',
              'bycycle.objs.fit.BycycleGroup.fit']
 BOUNDS = {'quick': '(n0, n1) in {1,2,3}^2 with n0*n1 <= 6, 2 samples per signal, the three axis modes, shared / 1-D / 2-D option lists',
-          'thorough': '(n0, n1) in {1,2,3}^2 (all nine for axis 0 / 1; n0*n1 <= 6 for axis (0,1)), 3 samples per signal'}
+          'thorough': 'axis 0 / 1: (n0, n1) in {1..5}^2 with n0*n1 <= 15; axis (0,1): every (n0, n1) with n0*n1 <= 6 (extents up to 6, all 720 completion orders); 3 samples per signal'}
 OUTSIDE = 'real OS-level scheduling; larger extents'
 STUBS = c11.STUBS + ['axis 0 / 1: compute_features_2d -> recorder returning one token per epoch']
 ASSUMPTIONS = ['equal arguments => equal analysis (C15)']
@@ -24,13 +24,16 @@ ASSUMPTIONS = ['equal arguments => equal analysis (C15)']
 def configs(tier):
     q = tier == 'quick'
     out = []
-    for n0 in (1, 2, 3):
-        for n1 in (1, 2, 3):
+    ext = (1, 2, 3) if q else (1, 2, 3, 4, 5, 6)
+    for n0 in ext:
+        for n1 in ext:
             if q and n0 * n1 > 6:
                 continue
             for axis in ('0', '1', 'both'):
                 if axis == 'both' and n0 * n1 > 6:
                     continue        # 9! completion orders: out of reach; 3x3 is covered for axis 0 / 1
+                if axis != 'both' and (max(n0, n1) > 5 or n0 * n1 > 15):
+                    continue
                 for kw in (['dict', 'list'] + (['none'] if axis == 'both' else [])):
                     for api in ('func', 'group'):
                         if api == 'group' and kw != 'dict':
